@@ -1,1 +1,383 @@
-//! Foreign archive writer (layouts) — see DESIGN §3.1.
+//! Foreign archive writer: builds spec-valid PMTiles v3 archives from a *layout description* —
+//! section order and gaps, directory trees of depth 1-3, run lengths, shared / back-referencing /
+//! unordered offsets, undeduplicated duplicates, non-eliding offset spelling, empty metadata,
+//! foreign codec parameters. Independent of pmtiles2.
+
+use super::codec::{self, Params};
+use super::directory::{self, SEntry};
+use super::header::SHeader;
+use crate::model::content::ContentSpec;
+use crate::model::json::J;
+use crate::model::pick;
+use serde::{Deserialize, Serialize};
+use std::collections::BTreeMap;
+
+#[derive(Clone, Copy, Debug, PartialEq, Eq, Hash, Serialize, Deserialize)]
+pub struct TEnt {
+    /// distance from the end of the previous run to this id
+    pub gap: u32,
+    pub run: u32,
+    pub sel: u16,
+}
+
+#[derive(Clone, Debug, PartialEq, Eq, Hash, Serialize, Deserialize)]
+pub struct Layout {
+    pub internal: u8,
+    pub params: Params,
+    /// permutation index (0..24) of [root, metadata, leaves, tile data]
+    pub order: u8,
+    /// gap before each of the four sections (in file order) and after the last
+    pub gaps: [u16; 5],
+    pub depth: u8,
+    pub fan1: u16,
+    pub fan2: u16,
+    pub elide: bool,
+    /// 0: leaves stored in walk order; otherwise a seeded shuffle
+    pub leaf_shuffle: u32,
+    pub leaf_gap: u8,
+    pub first_id: u64,
+    pub entries: Vec<TEnt>,
+    pub pool: Vec<ContentSpec>,
+    /// 0 dedup, first-use order (clustered) | 1 dedup, reverse first-use order | 2 no dedup, every entry its own copy
+    /// 3 dedup, pool order with junk between contents
+    pub data_mode: u8,
+    pub meta: Option<J>,
+    pub tile_type: u8,
+    pub tile_comp: u8,
+    pub zooms: [u8; 3],
+    pub coords: [i32; 6],
+}
+
+#[derive(Clone, Debug, Default)]
+pub struct Facts {
+    pub depth: u8,
+    pub has_run: bool,
+    pub shared_offset: bool,
+    pub non_monotonic: bool,
+    pub permuted: bool,
+    pub gapped: bool,
+    pub non_eliding: bool,
+    pub data_not_last: bool,
+    pub gap_after_dir: bool,
+    pub empty_meta: bool,
+}
+
+#[derive(Clone, Debug)]
+pub struct OneDir {
+    pub entries: Vec<SEntry>,
+    pub blob: Vec<u8>,
+    /// absolute offset in the file (filled in after layout)
+    pub abs_off: u64,
+}
+
+#[derive(Clone, Debug)]
+pub struct Built {
+    pub bytes: Vec<u8>,
+    pub header: SHeader,
+    /// id -> (absolute offset, length)
+    pub expected: BTreeMap<u64, (u64, u32)>,
+    pub tile_entries: Vec<SEntry>,
+    pub dirs: Vec<OneDir>,
+    pub facts: Facts,
+    /// ids worth steering ranges onto: leaf first ids, run starts / ends
+    pub steer: Vec<u64>,
+    pub metadata: serde_json::Value,
+}
+
+const PERMS: [[u8; 4]; 24] = [
+    [0, 1, 2, 3], [0, 1, 3, 2], [0, 2, 1, 3], [0, 2, 3, 1], [0, 3, 1, 2], [0, 3, 2, 1],
+    [1, 0, 2, 3], [1, 0, 3, 2], [1, 2, 0, 3], [1, 2, 3, 0], [1, 3, 0, 2], [1, 3, 2, 0],
+    [2, 0, 1, 3], [2, 0, 3, 1], [2, 1, 0, 3], [2, 1, 3, 0], [2, 3, 0, 1], [2, 3, 1, 0],
+    [3, 0, 1, 2], [3, 0, 2, 1], [3, 1, 0, 2], [3, 1, 2, 0], [3, 2, 0, 1], [3, 2, 1, 0],
+];
+
+fn junk(n: usize, salt: u64) -> Vec<u8> {
+    let mut r = crate::engine::Sm(salt ^ 0x6a75_6e6b);
+    let mut v = vec![0u8; n];
+    r.fill(&mut v);
+    // make junk look unlike a header/directory start
+    for b in &mut v {
+        *b |= 0x80;
+    }
+    v
+}
+
+struct Tree {
+    root: Vec<SEntry>,
+    /// leaf blobs in walk order: (entries, compressed blob)
+    leaves: Vec<(Vec<SEntry>, Vec<u8>)>,
+    /// for each leaf (walk order), its (offset, length) in the leaf section
+    place: Vec<(u64, u32)>,
+    leaf_section: Vec<u8>,
+    depth: u8,
+}
+
+fn enc(l: &Layout, es: &[SEntry]) -> Vec<u8> {
+    codec::compress(l.internal, &directory::encode(es, l.elide), l.params)
+}
+
+/// Build the directory tree for `tile_entries` with the requested depth / fan-out.
+fn tree(l: &Layout, tile_entries: &[SEntry], depth: u8, fan1: usize, fan2: usize) -> Tree {
+    if depth <= 1 || tile_entries.is_empty() {
+        return Tree { root: tile_entries.to_vec(), leaves: vec![], place: vec![], leaf_section: vec![], depth: 1 };
+    }
+    // level-2 (bottom) leaves hold tile entries
+    let bottom: Vec<Vec<SEntry>> = tile_entries.chunks(fan1.max(1)).map(<[SEntry]>::to_vec).collect();
+    // Leaves are placed in the leaf section; pointer entries need final offsets, so blobs for the
+    // bottom level are laid out first, then (depth 3) the middle level that points at them.
+    let mut blobs: Vec<(Vec<SEntry>, Vec<u8>)> = bottom.iter().map(|es| (es.clone(), enc(l, es))).collect();
+    let n_bottom = blobs.len();
+    // storage order of the bottom leaves
+    let mut order: Vec<usize> = (0..n_bottom).collect();
+    if l.leaf_shuffle != 0 {
+        let mut r = crate::engine::Sm(u64::from(l.leaf_shuffle));
+        for i in (1..order.len()).rev() {
+            let j = r.below(i as u64 + 1) as usize;
+            order.swap(i, j);
+        }
+    }
+    let mut section: Vec<u8> = Vec::new();
+    let mut place: Vec<(u64, u32)> = vec![(0, 0); n_bottom];
+    for (k, &i) in order.iter().enumerate() {
+        if l.leaf_gap > 0 {
+            section.extend_from_slice(&junk(usize::from(l.leaf_gap), k as u64));
+        }
+        place[i] = (section.len() as u64, blobs[i].1.len() as u32);
+        section.extend_from_slice(&blobs[i].1);
+    }
+    let ptrs: Vec<SEntry> = (0..n_bottom).map(|i| SEntry { id: bottom[i][0].id, off: place[i].0, len: place[i].1, run: 0 }).collect();
+    if depth == 2 {
+        return Tree { root: ptrs, leaves: blobs, place, leaf_section: section, depth: 2 };
+    }
+    // depth 3: middle leaves hold pointers to bottom leaves
+    let middle: Vec<Vec<SEntry>> = ptrs.chunks(fan2.max(1)).map(<[SEntry]>::to_vec).collect();
+    let mut mid_ptrs = Vec::new();
+    let mut all: Vec<(Vec<SEntry>, Vec<u8>)> = Vec::new();
+    let mut all_place: Vec<(u64, u32)> = Vec::new();
+    // walk order: middle leaf, then its bottom leaves
+    let mut bi = 0usize;
+    for (k, m) in middle.iter().enumerate() {
+        let blob = enc(l, m);
+        if l.leaf_gap > 0 {
+            section.extend_from_slice(&junk(usize::from(l.leaf_gap), 1000 + k as u64));
+        }
+        let off = section.len() as u64;
+        section.extend_from_slice(&blob);
+        mid_ptrs.push(SEntry { id: m[0].id, off, len: blob.len() as u32, run: 0 });
+        all.push((m.clone(), blob.clone()));
+        all_place.push((off, blob.len() as u32));
+        for _ in 0..m.len() {
+            all.push(std::mem::take(&mut blobs[bi]));
+            all_place.push(place[bi]);
+            bi += 1;
+        }
+    }
+    Tree { root: mid_ptrs, leaves: all, place: all_place, leaf_section: section, depth: 3 }
+}
+
+pub fn build(l: &Layout) -> Built {
+    // 1. tile entries and data
+    let contents: Vec<Vec<u8>> = l.pool.iter().map(ContentSpec::bytes).collect();
+    let mut ids: Vec<(u64, u32, usize)> = Vec::new(); // id, run, pool index
+    let mut next = l.first_id;
+    let end = super::hilbert::domain_end();
+    for e in &l.entries {
+        let id = next.saturating_add(u64::from(e.gap));
+        let run = e.run.max(1);
+        if id >= end || id + u64::from(run) > end {
+            break;
+        }
+        ids.push((id, run, pick(e.sel, contents.len())));
+        next = id + u64::from(run);
+    }
+    let mut data: Vec<u8> = Vec::new();
+    let mut tile_entries: Vec<SEntry> = Vec::with_capacity(ids.len());
+    match l.data_mode % 4 {
+        2 => {
+            for (id, run, ci) in &ids {
+                let off = data.len() as u64;
+                data.extend_from_slice(&contents[*ci]);
+                tile_entries.push(SEntry { id: *id, off, len: contents[*ci].len() as u32, run: *run });
+            }
+        }
+        m => {
+            let mut first_use: Vec<usize> = Vec::new();
+            for (_, _, ci) in &ids {
+                if !first_use.contains(ci) {
+                    first_use.push(*ci);
+                }
+            }
+            let order: Vec<usize> = match m {
+                0 => first_use.clone(),
+                1 => first_use.iter().rev().copied().collect(),
+                _ => {
+                    let mut o = first_use.clone();
+                    o.sort_unstable();
+                    o
+                }
+            };
+            let mut at: BTreeMap<usize, u64> = BTreeMap::new();
+            for (k, ci) in order.iter().enumerate() {
+                if m == 3 {
+                    data.extend_from_slice(&junk(3, k as u64));
+                }
+                at.insert(*ci, data.len() as u64);
+                data.extend_from_slice(&contents[*ci]);
+            }
+            for (id, run, ci) in &ids {
+                tile_entries.push(SEntry { id: *id, off: at[ci], len: contents[*ci].len() as u32, run: *run });
+            }
+        }
+    }
+
+    // 2. metadata
+    let (meta_blob, metadata) = match &l.meta {
+        None => (Vec::new(), serde_json::Value::Object(serde_json::Map::new())),
+        Some(j) => {
+            let v = j.to_value();
+            (codec::compress(l.internal, &serde_json::to_vec(&v).unwrap_or_default(), l.params), v)
+        }
+    };
+
+    // 3. directories; make sure the root fits in the first 16 KiB whatever precedes it
+    let mut depth = l.depth.clamp(1, 3);
+    let mut fan1 = usize::from(l.fan1.max(1));
+    let fan2 = usize::from(l.fan2.max(1));
+    let mut t = tree(l, &tile_entries, depth, fan1, fan2);
+    let mut root_blob = enc(l, &t.root);
+    let mut guard = 0;
+    while root_blob.len() > 12_000 && guard < 40 {
+        if depth < 2 {
+            depth = 2;
+            fan1 = fan1.max(32);
+        } else if depth < 3 && guard > 2 {
+            depth = 3;
+        } else {
+            fan1 *= 2;
+        }
+        t = tree(l, &tile_entries, depth, fan1, fan2);
+        root_blob = enc(l, &t.root);
+        guard += 1;
+    }
+
+    // 4. section order
+    let mut perm = PERMS[usize::from(l.order) % 24];
+    let sizes = [root_blob.len() as u64, meta_blob.len() as u64, t.leaf_section.len() as u64, data.len() as u64];
+    let root_end = |perm: &[u8; 4]| -> u64 {
+        let mut pos = 127u64;
+        for (k, s) in perm.iter().enumerate() {
+            pos += u64::from(l.gaps[k]);
+            if *s == 0 {
+                return pos + sizes[0];
+            }
+            pos += sizes[*s as usize];
+        }
+        pos
+    };
+    if root_end(&perm) > 16_384 {
+        // move root to the front
+        let mut p2 = vec![0u8];
+        p2.extend(perm.iter().filter(|s| **s != 0));
+        perm = [p2[0], p2[1], p2[2], p2[3]];
+    }
+    let mut bytes: Vec<u8> = vec![0u8; 127];
+    let mut offs = [0u64; 4];
+    for (k, s) in perm.iter().enumerate() {
+        let mut g = usize::from(l.gaps[k]);
+        if k == 0 && perm[0] == 0 && 127 + g as u64 + sizes[0] > 16_384 {
+            g = 0;
+        }
+        bytes.extend_from_slice(&junk(g, 77 + k as u64));
+        offs[*s as usize] = bytes.len() as u64;
+        match s {
+            0 => bytes.extend_from_slice(&root_blob),
+            1 => bytes.extend_from_slice(&meta_blob),
+            2 => bytes.extend_from_slice(&t.leaf_section),
+            _ => bytes.extend_from_slice(&data),
+        }
+    }
+    bytes.extend_from_slice(&junk(usize::from(l.gaps[4]), 99));
+
+    // 5. header
+    let mut distinct: Vec<u64> = tile_entries.iter().map(|e| e.off).collect();
+    distinct.sort_unstable();
+    distinct.dedup();
+    let header = SHeader {
+        root_off: offs[0],
+        root_len: sizes[0],
+        meta_off: offs[1],
+        meta_len: sizes[1],
+        leaf_off: offs[2],
+        leaf_len: sizes[2],
+        data_off: offs[3],
+        data_len: sizes[3],
+        n_addressed: tile_entries.iter().map(|e| u64::from(e.run)).sum(),
+        n_entries: tile_entries.len() as u64,
+        n_contents: distinct.len() as u64,
+        clustered: u8::from(l.data_mode % 4 == 0),
+        internal: l.internal,
+        tile_comp: l.tile_comp,
+        tile_type: l.tile_type,
+        min_zoom: l.zooms[0],
+        max_zoom: l.zooms[1],
+        min_lon: l.coords[0],
+        min_lat: l.coords[1],
+        max_lon: l.coords[2],
+        max_lat: l.coords[3],
+        center_zoom: l.zooms[2],
+        center_lon: l.coords[4],
+        center_lat: l.coords[5],
+    };
+    bytes[..127].copy_from_slice(&header.encode());
+
+    // expectations
+    let mut expected = BTreeMap::new();
+    let mut steer: Vec<u64> = Vec::new();
+    for e in &tile_entries {
+        for k in 0..u64::from(e.run) {
+            expected.insert(e.id + k, (header.data_off + e.off, e.len));
+        }
+        steer.push(e.id);
+        steer.push(e.id + u64::from(e.run) - 1);
+    }
+    let mut dirs = vec![OneDir { entries: t.root.clone(), blob: root_blob, abs_off: header.root_off }];
+    for (i, (es, blob)) in t.leaves.iter().enumerate() {
+        steer.push(es[0].id);
+        dirs.push(OneDir { entries: es.clone(), blob: blob.clone(), abs_off: header.leaf_off + t.place[i].0 });
+    }
+    steer.sort_unstable();
+    steer.dedup();
+    let mut offs_seen: Vec<u64> = Vec::new();
+    let mut non_monotonic = false;
+    let mut shared = false;
+    for e in &tile_entries {
+        if offs_seen.contains(&e.off) {
+            shared = true;
+        }
+        if let Some(last) = offs_seen.last() {
+            if e.off < *last {
+                non_monotonic = true;
+            }
+        }
+        offs_seen.push(e.off);
+    }
+    let file_order_is_default = perm == [0, 1, 2, 3];
+    let facts = Facts {
+        depth: t.depth,
+        has_run: tile_entries.iter().any(|e| e.run > 1),
+        shared_offset: shared,
+        non_monotonic,
+        permuted: !file_order_is_default,
+        gapped: l.gaps.iter().any(|g| *g > 0) || (l.leaf_gap > 0 && t.depth > 1),
+        non_eliding: !l.elide && tile_entries.len() >= 2,
+        data_not_last: perm[3] != 3,
+        gap_after_dir: {
+            // a gap follows the root or the leaf section
+            let pos_root = perm.iter().position(|s| *s == 0).unwrap_or(0);
+            let pos_leaf = perm.iter().position(|s| *s == 2).unwrap_or(0);
+            l.gaps[pos_root + 1] > 0 || (t.depth > 1 && l.gaps[pos_leaf + 1] > 0)
+        },
+        empty_meta: l.meta.is_none(),
+    };
+    Built { bytes, header, expected, tile_entries, dirs, facts, steer, metadata }
+}
